@@ -111,6 +111,9 @@ func c07Snapshot() string {
 }
 
 func execC07(in core.Sexp) string {
+	if in.Head() == "sc" {
+		return execC07Scenario(in)
+	}
 	n := int(in.Nth(1).Int())
 	seed := in.Nth(2).Int()
 	workers := int(in.Nth(3).Int())
@@ -151,10 +154,13 @@ func execC07(in core.Sexp) string {
 func init() {
 	core.Register(&core.Property{
 		ID: "C07",
-		Rule: "batches of statements (C01 condition trees as SELECT/UPDATE/DELETE on all 14 rule configurations, statements on unsharded tables, default-rule lookups) planned sequentially and then from 4–16 goroutines in different orders against one router, " +
-			"with the race detector on; non-trivial = a batch whose concurrent plans were all produced and compared",
+		Rule: "scenarios (sc …): 2–4 sessions of one namespace (13 rules: hash, mod, range, linked, year/month/day, four mycat rules, two global tables; two tables with a global sequence; a database without rules), each a list of statements drawn from 32 families " +
+			"(SELECT/INSERT VALUES/INSERT SET/REPLACE/UPDATE/DELETE, hints, joins, unions, foreign-database columns, unsharded and global tables, COM_FIELD_LIST lookups) with keys routed to every sub table; every item planned alone on a fresh router / namespace, in turns on a shared router, " +
+			"concurrently (-race), through SessionExecutor.getPlan of real sessions in turns and concurrently; plans compared with the one built alone, deep snapshot of router+rules+shards+namespace caches compared after every step, sequence values must be per statement and unique. " +
+			"Batches (plan N SEED G): C01 condition trees on 14 more rule configurations planned sequentially and from 4–16 goroutines. Non-trivial = every plan was produced and compared",
 		Generate: func(g *core.Gen) {
-			for i := 0; i < g.Scale(12, 120); i++ {
+			genC07Scenarios(g)
+			for i := 0; i < g.Scale(3, 20); i++ {
 				g.Emit(core.L(core.A("plan"), core.I(int64(40+g.Intn(80))), core.I(int64(g.Rand.Int31())), core.I(int64(core.Pick(g, []int{4, 8, 16})))), "batch")
 			}
 		},
@@ -177,7 +183,7 @@ func init() {
 					if len(text) > 3000 {
 						text = text[:3000]
 					}
-					r.AddViolation(core.Finding{Kind: "failing-input", Class: "data-race-in-planning", Input: "(plan …) batches of this run under -race", Impl: "race detector report", Detail: text})
+					r.AddViolation(core.Finding{Kind: "failing-input", Class: "data-race-in-planning", Input: "the scenarios and batches of this run under -race (the report names the two accesses)", Impl: "race detector report", Detail: text})
 				}
 				os.Remove(f)
 			}
@@ -185,7 +191,8 @@ func init() {
 		},
 		Assumptions: []string{
 			"the atomic steps of planning are modelled abstractly (read shared routing state, update private state); the Go memory model and scheduler are not modelled — the race detector run and the concurrent/sequential comparison are the search, the theorem is about the transition system",
-			"the translator's syntactic notion of a write to shared routing state (harness/extract/c07.go) is complete for proxy/router, proxy/plan, proxy/server",
+			"the translator's points-to analysis (harness/extract/c07ssa.go: class-hierarchy call graph, no unsafe conversions, reflection and goroutines started by planning not followed; log, stats and the MySQL sequence are cells of their own) and its syntactic predecessor (harness/extract/c07.go) list every write to shared memory",
+			"a plan is compared as: plan type, SQL per slice and physical database, routed sub table indexes, or the error text; fields of a plan that none of these show are not compared",
 		},
 	})
 }
